@@ -30,7 +30,9 @@ Inductive endpoint := EToken | EIntrospect | ERevoke | EDeviceAuthz.
 Inductive amethod := MBasic | MPost | MPKJWT | MNone.
 Inductive apptype := AWeb | ANative | AUserAgent.
 Inductive grant := GCode | GRefresh | GCC | GBearer | GTE | GDevice | GImplicit | GUnknown | GMissing.
-Inductive seck := SRight | SWrong.
+Inductive seck := SRight | SWrong
+                | SEmpty.   (* the empty string: Basic "id:" / client_secret= *)
+Inductive atype := TJWT | TNone | TWrong.   (* client_assertion_type: the jwt-bearer urn / absent / something else *)
 Inductive assk := AOk | AWrongKey | AWrongAud.
 
 (* what the request carries as client credential *)
@@ -41,6 +43,9 @@ Inductive pres :=
 | PBasicBadEsc                   (* Basic with a malformed percent escape (%zz) *)
 | PPost (s : seck)               (* client_id + client_secret in the form *)
 | PAssert (a : assk)             (* client_assertion + client_assertion_type *)
+| PAssertTypeOnly                (* client_id + client_assertion_type, no client_assertion *)
+| PAssertNoType                  (* valid client_assertion without client_assertion_type *)
+| PAssertWrongType               (* valid client_assertion with another client_assertion_type *)
 | PBoth (b p : seck)             (* Basic and form secret together *)
 (* cross-client presentations: a second, confidential client Y ("victim", [victim_reg]) exists,
    the grant artefact of the case (code, refresh token, device code, token to introspect or
@@ -68,8 +73,14 @@ Record placement := mkPl { pl_grant : gplace;   (* grant_type *)
                            pl_client : place;   (* client_id, client_secret, client_assertion(_type) *)
                            pl_art : place }.    (* code, refresh_token, device_code, subject_token, token, ... *)
 
+(* what the same provider instance served immediately before: nothing, or an introspection
+   request of a third client P with its full credential.  No guard keeps state between requests,
+   so the model does not read it. *)
+Inductive prevk := NoPrev | PrevAssert | PrevBasic | PrevPost.
+
 Record input := mkInput { i_router : router; i_endpoint : endpoint; i_cfg : cfg;
-                          i_reg : reg; i_pres : pres; i_grant : grant; i_pl : placement }.
+                          i_reg : reg; i_pres : pres; i_grant : grant; i_pl : placement;
+                          i_prev : prevk }.
 
 Inductive stclass := S1 | S2 | S3 | S4 | S5.
 Inductive ecode := ENone | EInvalidRequest | EInvalidClient | EInvalidGrant | EUnauthorizedClient
@@ -93,10 +104,22 @@ Definition grant_eqb (a b : grant) : bool :=
 Definition has_secret (m : amethod) : bool :=
   match m with MBasic | MPost => true | _ => false end.
 
-(* Storage.AuthorizeClientIDSecret / ClientCredentialsStorage.ClientCredentials: only a
-   registered client that has a secret passes, and only with that secret *)
+(* Storage.AuthorizeClientIDSecret compares the presented with the stored secret; a client
+   registered none / private_key_jwt has the empty string stored, so the EMPTY secret matches it
+   (refstore, and the repository's example storage, compare "" == "") *)
+Definition storage_secret_ok (rg : reg) (s : seck) : bool :=
+  r_known rg && match s with
+                | SRight => has_secret (r_meth rg)
+                | SWrong => false
+                | SEmpty => negb (has_secret (r_meth rg))
+                end.
+(* ClientBasicAuth and op.AuthorizeClientIDSecret refuse an empty secret before asking the
+   storage (fix Fxx-C05-5) *)
 Definition secret_ok (rg : reg) (s : seck) : bool :=
-  r_known rg && has_secret (r_meth rg) && match s with SRight => true | SWrong => false end.
+  match s with SEmpty => false | _ => storage_secret_ok rg s end.
+(* ClientCredentialsStorage.ClientCredentials: refstore refuses clients without a secret *)
+Definition cc_secret_ok (rg : reg) (s : seck) : bool :=
+  r_known rg && has_secret (r_meth rg) && match s with SRight => true | _ => false end.
 
 (* VerifyJWTAssertion over Storage.GetKeyByIDAndClientID: only an assertion addressed to the
    issuer and signed by a key registered for exactly that client verifies *)
@@ -171,11 +194,19 @@ Definition basic_of (p : pres) : option (option seck) :=
   | _ => None
   end.
 Definition form_id (p : pres) : bool :=
-  match p with PIdOnly | PPost _ | PBoth _ _ => true | _ => false end.
+  match p with PIdOnly | PPost _ | PBoth _ _ | PAssertTypeOnly => true | _ => false end.
+(* an empty client_secret decodes like an absent one *)
+Definition nonempty (s : seck) : option seck := match s with SEmpty => None | _ => Some s end.
 Definition form_secret (p : pres) : option seck :=
-  match p with PPost s => Some s | PBoth _ s => Some s | _ => None end.
+  match p with PPost s => nonempty s | PBoth _ s => nonempty s | _ => None end.
 Definition assertion_of (p : pres) : option assk :=
-  match p with PAssert a => Some a | _ => None end.
+  match p with PAssert a => Some a | PAssertNoType | PAssertWrongType => Some AOk | _ => None end.
+Definition atype_of (p : pres) : atype :=
+  match p with PAssert _ | PAssertTypeOnly => TJWT | PAssertWrongType => TWrong | _ => TNone end.
+Definition is_jwt (t : atype) : bool := match t with TJWT => true | _ => false end.
+(* VerifyJWTAssertion of the client_assertion field, which may be empty *)
+Definition assertion_opt_ok (rg : reg) (o : option assk) : bool :=
+  match o with Some a => assertion_ok rg a | None => false end.
 
 (* client id and secret after the form was decoded and Basic, when present, overwrote them
    (ParseAuthenticatedTokenRequest, ParseClientCredentialsRequest, parseClientCredentials) *)
@@ -183,12 +214,15 @@ Inductive creds := CBad | CCreds (id : bool) (sec : option seck).
 Definition parse_creds (p : pres) : creds :=
   match basic_of p with
   | Some None => CBad
-  | Some (Some s) => CCreds true (Some s)
+  | Some (Some s) => CCreds true (nonempty s)
   | None => CCreds (form_id p) (form_secret p)
   end.
 
 Definition secret_check (rg : reg) (sec : option seck) : bool :=
   match sec with Some s => secret_ok rg s | None => false end.
+
+Definition cc_secret_check (rg : reg) (sec : option seck) : bool :=
+  match sec with Some s => cc_secret_ok rg s | None => false end.
 
 Definition r4 := Refused S4.
 Definition r5 := Refused S5.
@@ -198,8 +232,8 @@ Definition is_none (m : amethod) := match m with MNone => true | _ => false end.
 Definition is_post (m : amethod) := match m with MPost => true | _ => false end.
 
 (* AuthorizePrivateJWTKey; [raw] is how the caller renders an unclassified error *)
-Definition private_jwt (rg : reg) (a : assk) (raw : result) (k : result) : result :=
-  if negb (assertion_ok rg a) then raw
+Definition private_jwt (rg : reg) (a : option assk) (raw : result) (k : result) : result :=
+  if negb (assertion_opt_ok rg a) then raw
   else if negb (is_pkjwt (r_meth rg)) then r4 EInvalidClient
   else k.
 
@@ -221,12 +255,11 @@ Definition p_code (c : cfg) (rg : reg) (p : pres) (own : bool) : result :=
   match parse_creds p with
   | CBad => r4 EInvalidClient
   | CCreds id sec =>
-      match assertion_of p with
-      | Some a => if negb (f_pkjwt c) then r4 EInvalidClient
-                  else private_jwt rg a (r4 EServerError) k
-      | None => if negb (id && r_known rg) then r4 EInvalidClient
-                else by_secret c rg sec k
-      end
+      if is_jwt (atype_of p) then   (* tokenReq.ClientAssertionType == jwt-bearer *)
+        if negb (f_pkjwt c) then r4 EInvalidClient
+        else private_jwt rg (assertion_of p) (r4 EServerError) k
+      else if negb (id && r_known rg) then r4 EInvalidClient
+      else by_secret c rg sec k
   end.
 
 Definition p_refresh (c : cfg) (rg : reg) (p : pres) (own : bool) : result :=
@@ -234,21 +267,20 @@ Definition p_refresh (c : cfg) (rg : reg) (p : pres) (own : bool) : result :=
   match parse_creds p with
   | CBad => r4 EInvalidClient
   | CCreds id sec =>
-      match assertion_of p with
-      | Some a => if negb (f_pkjwt c) then r4 EServerError
-                  else private_jwt rg a (r4 EServerError)
-                         (if registered rg GRefresh then ok else r4 EUnauthorizedClient)
-      | None => if negb (id && r_known rg) then r4 EServerError
-                else if negb (registered rg GRefresh) then r4 EUnauthorizedClient
-                else by_secret c rg sec ok
-      end
+      if is_jwt (atype_of p) then
+        if negb (f_pkjwt c) then r4 EServerError
+        else private_jwt rg (assertion_of p) (r4 EServerError)
+               (if registered rg GRefresh then ok else r4 EUnauthorizedClient)
+      else if negb (id && r_known rg) then r4 EServerError
+      else if negb (registered rg GRefresh) then r4 EUnauthorizedClient
+      else by_secret c rg sec ok
   end.
 
 Definition p_cc (c : cfg) (rg : reg) (p : pres) : result :=
   match parse_creds p with
   | CBad => r4 EInvalidClient
   | CCreds id sec =>
-      if negb (id && secret_check rg sec) then r4 EInvalidClient
+      if negb (id && cc_secret_check rg sec) then r4 EInvalidClient
       else if negb (registered rg GCC) then r4 EUnauthorizedClient
       else if is_post (r_meth rg) && negb (f_post c) then r4 EInvalidClient
       else Granted
@@ -326,10 +358,10 @@ Definition p_introspect (rg : reg) (p : pres) (own : bool) : result :=
 (* Storage.RevokeToken refuses a token that belongs to another client *)
 Definition p_revoke (c : cfg) (rg : reg) (p : pres) (own : bool) : result :=
   let ok := if own then Granted else r4 EInvalidClient in
-  match assertion_of p with
-  | Some a => if negb (f_pkjwt c) then r4 EInvalidClient
-              else if assertion_ok rg a then ok else r5 EServerError
-  | None =>
+  if is_jwt (atype_of p) then   (* req.ClientAssertionType == jwt-bearer *)
+    if negb (f_pkjwt c) then r4 EInvalidClient
+    else if assertion_opt_ok rg (assertion_of p) then ok else r5 EServerError
+  else
       match basic_of p with
       | Some None => r4 EInvalidClient
       | Some (Some s) => if secret_ok rg s then ok else r4 EInvalidClient
@@ -340,8 +372,7 @@ Definition p_revoke (c : cfg) (rg : reg) (p : pres) (own : bool) : result :=
                | Some s => if is_post (r_meth rg) && negb (f_post c) then r4 EInvalidClient
                            else if secret_ok rg s then ok else r4 EInvalidClient
                end
-      end
-  end.
+      end.
 
 Definition p_device_authz (c : cfg) (rg : reg) (p : pres) : result :=
   match client_id_from_request rg p with
@@ -356,36 +387,36 @@ Definition p_device_authz (c : cfg) (rg : reg) (p : pres) : result :=
 (* ---------------- LegacyServer router (RegisterLegacyServer(NewLegacyServer(...))) *)
 
 (* parseClientCredentials; k gets (client_id present, secret, assertion) *)
-Definition l_parse (p : pres) (k : bool -> option seck -> option assk -> result) : result :=
+Definition l_parse (p : pres) (k : bool -> option seck -> option assk -> atype -> result) : result :=
   match parse_creds p with
   | CBad => r4 EInvalidClient
   | CCreds id sec =>
       match assertion_of p with
-      | None => if id then k id sec None else r4 EInvalidRequest
-      | Some a => k id sec (Some a)
+      | None => if id then k id sec None (atype_of p) else r4 EInvalidRequest
+      | Some a => if is_jwt (atype_of p) then k id sec (Some a) TJWT
+                  else r4 EInvalidRequest   (* invalid client_assertion_type *)
       end
   end.
 
 (* LegacyServer.VerifyClient; [is_cc]: grant_type=client_credentials *)
 Definition l_verify_client (c : cfg) (rg : reg) (is_cc : bool)
-    (id : bool) (sec : option seck) (ass : option assk) (k : result) : result :=
+    (id : bool) (sec : option seck) (ass : option assk) (ty : atype) (k : result) : result :=
   if is_cc then
     if negb (c_cc c) then r4 EUnsupportedGrantType
-    else if negb (id && secret_check rg sec) then r5 EServerError
+    else if negb (id && cc_secret_check rg sec) then r5 EServerError
     else if is_post (r_meth rg) && negb (f_post c) then r4 EInvalidClient
     else k
-  else match ass with
-  | Some a => if negb (f_pkjwt c) then r4 EInvalidClient
-              else private_jwt rg a (r5 EServerError) k
-  | None => if negb (id && r_known rg) then r4 EInvalidClient
-            else by_secret c rg sec k
-  end.
+  else if is_jwt ty then   (* r.Data.ClientAssertionType == jwt-bearer *)
+    if negb (f_pkjwt c) then r4 EInvalidClient
+    else private_jwt rg ass (r5 EServerError) k
+  else if negb (id && r_known rg) then r4 EInvalidClient
+  else by_secret c rg sec k.
 
 (* webServer.withClient: verifyRequestClient, then the grant registration when grant_type is sent *)
 (* [g]: the grant_type parameter as sent (GMissing: none), [gp] where it travels *)
 Definition l_with_client (c : cfg) (rg : reg) (p : pres) (gp : gplace) (g : grant) (k : result) : result :=
-  l_parse p (fun id sec ass =>
-    l_verify_client c rg (match read_grant src_verify_client gp g with GCC => true | _ => false end) id sec ass
+  l_parse p (fun id sec ass ty =>
+    l_verify_client c rg (match read_grant src_verify_client gp g with GCC => true | _ => false end) id sec ass ty
       (match read_grant src_with_client gp g with
        | GMissing => k
        | g' => if registered rg g' then k else r4 EUnauthorizedClient
@@ -413,12 +444,13 @@ Definition l_token (c : cfg) (rg : reg) (p : pres) (pl : placement) (g : grant) 
 
 Definition l_introspect (rg : reg) (p : pres) (own : bool) : result :=
   let ok := if own then Granted else Inactive in
-  l_parse p (fun id sec ass =>
+  l_parse p (fun id sec ass ty =>
     match ass with
     | Some a => if assertion_ok rg a then ok else r4 EUnauthorizedClient
     | None => match sec with
-              | None => r4 EInvalidClient
-              | Some s => if secret_ok rg s then ok else r4 EUnauthorizedClient
+              | None => r4 EInvalidClient   (* cc.ClientSecret == "" && cc.ClientAssertion == "" *)
+              | Some s => (* authenticateResourceClient asks the storage directly *)
+                          if storage_secret_ok rg s then ok else r4 EUnauthorizedClient
               end
     end).
 
